@@ -185,6 +185,29 @@ def _is_mask(d, e) -> bool:
 def rank(ctx, col):
     repo = ctx.repo
     u = repo.get_def("swcgeom.utils.dsu.DisjointSetUnion.union_sets")
+    # linking joins REPRESENTATIVES: both sides of every store into the parent table are values returned by find_parent (re-parenting an argument itself leaves the
+    # rest of its old set behind)
+    col.rule("R-REPR", "union links representatives only: in union_sets every store `element_parent[x] = y` has x and y bound from find_parent(...) -- never an argument of the call "
+             "(re-parenting a non-representative member detaches it from the rest of its set)", floor=1)
+    reps = {n.targets[0].id for n in own_nodes(u) if isinstance(n, ast.Assign) and len(n.targets) == 1 and isinstance(n.targets[0], ast.Name) and isinstance(n.value, ast.Call)
+            and (dotted(n.value.func) or "").rsplit(".", 1)[-1] in ("find_parent", "find", "find_root", "_find")}
+    n_link = 0
+    for st_ in own_nodes(u):
+        if isinstance(st_, ast.Assign) and len(st_.targets) == 1 and isinstance(st_.targets[0], ast.Subscript) and "parent" in norm_src(st_.targets[0].value):
+            n_link += 1
+            x_, y_ = st_.targets[0].slice, st_.value
+            bad_ = [norm_src(e_) for e_ in (x_, y_) if isinstance(e_, ast.Name) and e_.id in u.params and e_.id not in reps]
+            und_ = [norm_src(e_) for e_ in (x_, y_) if not (isinstance(e_, ast.Name))]
+            if bad_:
+                col.bad("R-REPR", u.qualname, u.loc(st_), "a link joins the two representatives",
+                        f"`{norm_src(st_)}` re-parents / links to the argument `{bad_[0]}` itself, not its representative: when `{bad_[0]}` is a non-representative member of its set, the other "
+                        f"members stay behind -- after union(0,1), union(2,3), union(0,2), union(4,5), union(0,5) elements 0 and 4 are reported as not joined", stmt="repr", definite=True)
+            elif und_ or not all(isinstance(e_, ast.Name) and e_.id in reps for e_ in (x_, y_)):
+                col.unresolved("R-REPR", u.qualname, u.loc(st_), "a link joins the two representatives", f"`{norm_src(st_)}`: operands are not plain names bound from find_parent", stmt="repr")
+            else:
+                col.ok("R-REPR", u.qualname, u.loc(st_), "a link joins the two representatives", norm_src(st_), stmt="repr")
+    if not n_link:
+        col.unresolved("R-REPR", u.qualname, u.loc(), "a link joins the two representatives", "no store into the parent table found in union_sets", stmt="repr")
     outer = [n for n in u.node.body if isinstance(n, ast.If)]
     if len(outer) != 1:
         raise AnalysisError("anchor-vanished: `if root_a != root_b` of union_sets")
